@@ -12,23 +12,20 @@ variable {h : Hashing} {j : SyncIn}
 
 theorem par_recon_ok (hs : NSC h j) (hpar : j.view.parallel = true) : hs.norm.recon.2 = .ok := by
   have hn := hs.norm
-  have hord : ∀ p ∈ j.pods.map (·.pod), p.ord < maxInt32 := by
-    intro p hp
-    rw [List.mem_map] at hp
-    obtain ⟨c, hc, rfl⟩ := hp
-    exact (hn.pods c hc).2.2.2.2.2.1
-  exact (updateStatefulSet_par j.view _ _ _ (replicasOf j.view) hn.spec.rep hn.spec.r0 hpar hn.spec.del (hn.snap hs.idpos)
-    (bOf_le hn) hord).1
+  unfold NormC.recon updateStatefulSet
+  cases hpr : prepare j.view hn.curRev.name hn.updRev.name (j.pods.map (·.pod)) with
+  | error e =>
+    obtain ⟨st, o⟩ := e
+    exact absurd hpr (prepare_calm' j.view _ _ _ (replicasOf j.view) hn.spec.rep st o)
+  | ok p =>
+    simp only [hn.spec.del, Bool.false_eq_true, if_false]
+    obtain ⟨s, l, h1, _, _⟩ := runLoops_par j.view hn.curRev.name hn.updRev.name p hpar
+    rw [h1]
 
 theorem par_recon_acts (hs : NSC h j) (hpar : j.view.parallel = true) :
     hs.norm.recon.1.acts = actsOf j.view hs.norm.curRev.name hs.norm.updRev.name (bOf j) (EOf j) j.pods := by
   have hn := hs.norm
-  have hord : ∀ p ∈ j.pods.map (·.pod), p.ord < maxInt32 := by
-    intro p hp
-    rw [List.mem_map] at hp
-    obtain ⟨c, hc, rfl⟩ := hp
-    exact (hn.pods c hc).2.2.2.2.2.1
-  exact recon_acts j.view _ _ _ (replicasOf j.view) hn.spec.rep hpar hn.spec.del (bOf_le hn) hord
+  exact recon_acts j.view _ _ _ (replicasOf j.view) hn.spec.rep hpar hn.spec.del
 
 theorem par_facts (hs : NSC h j) (hpart : PartOk j.view) :
     ActFacts j.view hs.norm.curRev.name hs.norm.updRev.name (bOf j) (EOf j) j.pods
